@@ -365,6 +365,12 @@ func (o *DatReaderOptimizer) Optimize(rules []*config_parser.RoutingRule) ([]*co
 					}
 					newParams = append(newParams, params...)
 				}
+				if len(newParams) == 0 && len(f.Params) > 0 {
+					// The config parser rejects empty parameter lists; an expansion that
+					// yields nothing would silently drop this condition from the rule.
+					results <- ruleResult{idx, nil, fmt.Errorf("%v: geodata references expand to an empty parameter list, which is not supported", f.String(false, false, false))}
+					return
+				}
 				f.Params = newParams
 			}
 			results <- ruleResult{idx, r, nil}
